@@ -16,6 +16,7 @@ use std::cell::Cell;
 
 thread_local! {
     static FORMAT_LOGS: Cell<bool> = const { Cell::new(false) };
+    static IN_LOG: Cell<bool> = const { Cell::new(false) };
     /// (nesting flag, records seen) of the sink below
     static SINK: Cell<(bool, u32)> = const { Cell::new((false, 0)) };
 }
@@ -57,6 +58,17 @@ impl log::Log for NullLogger {
         true
     }
     fn log(&self, record: &log::Record) {
+        // a record emitted by code the sink itself called (re-entry) is dropped: a sink must not recurse into itself
+        if IN_LOG.with(|f| f.replace(true)) {
+            return;
+        }
+        self.log_outer(record);
+        IN_LOG.with(|f| f.set(false));
+    }
+    fn flush(&self) {}
+}
+impl NullLogger {
+    fn log_outer(&self, record: &log::Record) {
         // a log sink may itself use the crate (a DLT sink stamps its records): re-entering the pure helpers from inside
         // a log call must be harmless
         let ts = dlt_core::dlt::DltTimeStamp::from_ms(1_700_000_000_123);
@@ -79,7 +91,6 @@ impl log::Log for NullLogger {
             }
         }
     }
-    fn flush(&self) {}
 }
 static LOGGER: NullLogger = NullLogger;
 pub static SINK_ALWAYS: std::sync::atomic::AtomicBool = std::sync::atomic::AtomicBool::new(false);
